@@ -338,6 +338,27 @@ class SimThreads:
 
     # -- running ------------------------------------------------------------------
     def run(self, est_steps: int = 200) -> dict[str, tuple[str, Any]]:
+        """Run the spawned threads to the end under the baton, with every lock the library holds made cooperative.
+
+        A real ``threading.Lock`` taken by a parked thread blocks the next thread in C, where no trace event fires and the
+        baton is never handed back: the run would sit until the wall watchdog ends it (a harness error, exit 2). Today only
+        ``mnemonic`` has one and W8 shims it itself; a changed tree may bring another (a memo behind a module-level lock),
+        and a simulator that hangs on it decides nothing about that tree. So for the length of the run the name
+        ``threading`` in every btclib module, module-level lock objects, and lock attributes of module-level instances
+        become the cooperative stand-ins; everything is put back afterwards. On a tree without such locks this does nothing.
+        """
+        undo = shim_library_locks()
+        mine = SimLock.sched is None
+        if mine:
+            SimLock.sched = self
+        try:
+            return self._run(est_steps)
+        finally:
+            if mine:
+                SimLock.sched = None
+            undo()
+
+    def _run(self, est_steps: int = 200) -> dict[str, tuple[str, Any]]:
         ch = self.ctx.ch
         kind = self.strategy["kind"]
         n = len(self.threads)
@@ -451,6 +472,45 @@ class ThreadingShim:
 
     def __getattr__(self, name: str) -> Any:
         return getattr(threading, name)
+
+
+_LOCK_TYPES = (type(threading.Lock()), type(threading.RLock()))
+
+
+def shim_library_locks() -> Callable[[], None]:
+    """Make the locks of every loaded btclib module cooperative; returns the undo. Names are visited in sorted order."""
+    import sys  # noqa: PLC0415
+
+    undos: list[Callable[[], None]] = []
+
+    def put(holder: Any, name: str, new: Any) -> None:
+        old = getattr(holder, name)
+        try:
+            setattr(holder, name, new)
+        except Exception:  # noqa: BLE001 -- a frozen or slotted holder keeps its lock
+            return
+        undos.append(lambda: setattr(holder, name, old))
+
+    shim = ThreadingShim()
+    for mod_name in sorted(sys.modules):
+        mod = sys.modules[mod_name]
+        if mod is None or not (mod_name == "btclib" or mod_name.startswith("btclib.")):
+            continue
+        for name in sorted(vars(mod)):
+            value = vars(mod)[name]
+            if value is threading:
+                put(mod, name, shim)
+            elif value is threading.Lock or value is threading.RLock:
+                put(mod, name, SimLock)
+            elif isinstance(value, _LOCK_TYPES):
+                if not value.locked() if hasattr(value, "locked") else True:
+                    put(mod, name, SimLock())
+            elif getattr(type(value), "__module__", "").startswith("btclib") and hasattr(value, "__dict__"):
+                for attr in sorted(vars(value)):
+                    held = vars(value)[attr]
+                    if isinstance(held, _LOCK_TYPES) and not (hasattr(held, "locked") and held.locked()):
+                        put(value, attr, SimLock())
+    return lambda: [u() for u in reversed(undos)] and None
 
 
 def count_steps(fn: Callable[[], Any], root: str = BTCLIB_ROOT, dedupe: str = "frame") -> tuple[Any, int]:
